@@ -29,68 +29,55 @@ impl Ipv6Address {
         )
     }
 
-    /// Create an IPv6 address from a string that uses zero compression
+    /// Create an IPv6 address from its RFC 4291 text form: eight groups of
+    /// hexadecimal digits separated by colons, where one run of zero groups
+    /// may be written as "::" (at the start, in the middle or at the end).
     pub fn from_str(s: &str) -> Result<Self, &'static str> {
-        // Split the string by colons to get each segment
-        let segments: Vec<&str> = s.split(':').collect();
-
-        // Ensure we have at most 8 segments for a valid IPv6 address
-        if segments.len() > 8 {
-            return Err("Invalid IPv6 address format");
+        const ERR: &str = "Invalid IPv6 address format";
+        // At most one "::". It splits the groups into a head and a tail.
+        let (head, tail, compressed) = match s.find("::") {
+            Some(pos) => (&s[..pos], &s[pos + 2..], true),
+            None => (s, "", false),
+        };
+        if tail.contains("::") {
+            return Err(ERR);
+        }
+        let head_groups: Vec<&str> = if head.is_empty() {
+            Vec::new()
+        } else {
+            head.split(':').collect()
+        };
+        let tail_groups: Vec<&str> = if tail.is_empty() {
+            Vec::new()
+        } else {
+            tail.split(':').collect()
+        };
+        // "::" stands for at least one group of zeros
+        let count = head_groups.len() + tail_groups.len();
+        if (compressed && count > 7) || (!compressed && count != 8) {
+            return Err(ERR);
         }
 
         let mut parts = [0u16; 8];
-        let mut part_index = 0; // Index to fill in the parts array
-
-        // Flags to handle zero compression
-        let mut compressed = false;
-        let mut compression_index = 0; // Index where compression starts
-
-        for (i, &segment) in segments.iter().enumerate() {
-            if segment.is_empty() {
-                if compressed {
-                    return Err("Invalid IPv6 address format");
-                }
-                compressed = true;
-                compression_index = i;
-                continue;
-            }
-
-            if part_index >= 8 {
-                return Err("Invalid IPv6 address format");
-            }
-
-            // Convert segment to u16 value
-            match u16::from_str_radix(segment, 16) {
-                Ok(value) => parts[part_index] = value,
-                Err(_) => return Err("Invalid segment in IPv6 address"),
-            }
-
-            part_index += 1;
+        for (i, group) in head_groups.iter().enumerate() {
+            parts[i] = Self::parse_group(group)?;
         }
-
-        // Handle zero compression
-        if compressed {
-            // Calculate the number of segments we need to shift
-            let shift = 8 - part_index;
-
-            // Shift parts to make room for the compressed segments
-            for i in (compression_index + shift..8).rev() {
-                parts[i] = parts[i - shift];
-            }
-
-            // Fill in the compressed segments with zeros
-            for part in parts.iter_mut().skip(compression_index).take(shift) {
-                *part = 0;
-            }
-        } else if part_index != 8 {
-            // If no compression, ensure we have exactly 8 parts
-            return Err("Invalid IPv6 address format");
+        let start = 8 - tail_groups.len();
+        for (i, group) in tail_groups.iter().enumerate() {
+            parts[start + i] = Self::parse_group(group)?;
         }
 
         Ok(Self(
             parts[0], parts[1], parts[2], parts[3], parts[4], parts[5], parts[6], parts[7],
         ))
+    }
+
+    // A group is one to four hexadecimal digits
+    fn parse_group(group: &str) -> Result<u16, &'static str> {
+        if group.is_empty() || group.len() > 4 || !group.chars().all(|c| c.is_ascii_hexdigit()) {
+            return Err("Invalid segment in IPv6 address");
+        }
+        u16::from_str_radix(group, 16).map_err(|_| "Invalid segment in IPv6 address")
     }
 }
 
